@@ -63,6 +63,15 @@ CLAIMED = {
               'point, on the real FilePersister with write() interposed; read-back compared with the model and with an independent oracle of the property.'),
         note=('Trusted: Lean kernel; propext, Quot.sound, Classical.choice; crash model = death between completed write() calls as stated by the property (no torn writes / fsync / page cache); a crash is realised by failing all later '
               'writes, destroying the object and reopening; harness/store.cpp. KNOWN FINDING (known_findings.json): a message stored before any control record loses its index slot (record 0) to the first control store.')),
+    'C29': dict(
+        category='proof', design_ref='DESIGN.md section 7 C29',
+        technique='Lean 4 theorems (induction over the rename loop with a per-chain shift invariant; explicit name-list indices) about a hand-written model of FileLogger::rotate and the FilePersister purge rotation, Logger::max_rotation regenerated from the source + differential correspondence on real directories under ASan with libstdc++ assertions',
+        text=('Kernel-checked for EVERY rotation count and EVERY pre-existing directory: C29_log_inbounds / C29_purge_inbounds (no access outside the generation-name lists), C29_log_shift / C29_purge_shift (name.k holds what name.(k-1) held, 1<=k<=min(count,max_rotation), '
+              'for the log chain and for both chains of the file store), C29_log_holes (a missing predecessor leaves the generation empty: nothing is duplicated), C29_log_untouched / C29_purge_untouched (names above the managed range, the other chain and all other files keep their content), '
+              'C29_log_no_rotation (append-mode logs are not rotated unless forced; count 0 never rotates), C29_log_live (the live file of a non-append logger is new and empty). Correspondence: FileLogger (constructor rotation, rotate(true)) and FilePersister::initialise(purge) on real '
+              'temporary directories for counts {0,1,2,3,5,1023,1024,1025,1100,random} (thorough: every count 0..1100) x generation sets with holes / without live file / around and beyond the cap x other files; directory listing compared with the model and with an independent oracle of the property.'),
+        note=('Trusted: Lean kernel; propext, Quot.sound, Classical.choice; directory as a finite map, rename()/open() as atomic steps, failed rename ignored as in the code; harness/rot.cpp; regexp extraction of max_rotation. '
+              'Out-of-range indexing in the real code is seen through -D_GLIBCXX_ASSERTIONS/ASan in the harness build. Compressed (.gz) logs not exercised. Defect fixed in /repo (9a2911a): both loops ran from the configured count instead of the list length.')),
 }
 
 PENDING_REASON = 'not yet covered: the Lean model and correspondence harness for this property have not been built in this framework yet (see DESIGN.md section 7 for the plan); no other technique is substituted'
